@@ -45,8 +45,22 @@ def check(run, views, tier):
         from .c15 import check_alloc
         check_alloc(run, F)          # abort by memory exhaustion: constant pre-allocations per token stay within budget
         run.floor("R-GUARD", n_fn, 15, "functions in the parse/inspect cones")
-        run.floor("R-GUARD", counts.get("buffer-read", 0), 8, "fixed-width buffer reads")
-        run.floor("R-GUARD", counts.get("vec-index", 0), 1, "guarded Vec::remove")
+        # vacuity guards: every call of a precondition-carrying library function that is present in the cones must have been judged
+        # (a refactoring may remove such calls altogether - `remove(0)` written as a fallible conversion - and then there is nothing to judge)
+        from ..facts import callee as _callee, walk as _walk
+        present = {"buffer-read": 0, "vec-index": 0}
+        for fn in bodies:
+            hb = F.hir.get(fn)
+            if hb is None or hb.get("from_expansion"):
+                continue
+            for x in _walk(hb["body"]):
+                c = _callee(x)
+                if c in T["buf_fixed"]:
+                    present["buffer-read"] += 1
+                elif c in T["index"]:
+                    present["vec-index"] += 1
+        run.floor("R-GUARD", counts.get("buffer-read", 0), min(8, present["buffer-read"]), "fixed-width buffer reads (of %d present)" % present["buffer-read"])
+        run.floor("R-GUARD", counts.get("vec-index", 0), min(1, present["vec-index"]), "guarded Vec::remove (of %d present)" % present["vec-index"])
         gr.r_norec(run, F, g, parse_cone)
         ni, no = gr.r_loop(run, F, g, bodies, inspect_cone)
         run.floor("R-LOOP", ni, 2, "iterator loops")
